@@ -188,6 +188,24 @@ fn alphabet_stream(fmt: u8, variant: usize) -> Vec<Packet> {
             }
         }
     }
+    // a warning on one lane and an error on another, for every ordered pair over lanes that share / do not share a
+    // byte and a position inside the byte: the worst state shown is "Error", never "Fatal"
+    {
+        let lanes = [0usize, 1, 4, 5, 13, 26, 27];
+        for (i, &a) in lanes.iter().enumerate() {
+            for (j, &b) in lanes.iter().enumerate() {
+                if a == b {
+                    continue;
+                }
+                let ls = (1u64 << (2 * a)) | (2u64 << (2 * b));
+                if (i + j + variant) % 2 == 0 {
+                    all_words.push(words::Tdt { lane_status: ls, packet_done: (i + j) % 3 != 0, ..Default::default() }.encode());
+                } else {
+                    all_words.push(words::Ddw0 { lane_status: ls, ..Default::default() }.encode());
+                }
+            }
+        }
+    }
     all_words.push(words::cdw(0xABCDEF, 3));
     for id in [0x20u8, 0x28, 0x40, 0x46, 0x48, 0x4E, 0x50, 0x58, 0x5E] {
         all_words.push(words::data_word(id, [id ^ 0x5A; 9]));
